@@ -171,7 +171,8 @@ class MutateValue(Contract):
         for d in (c.attrs, c.attr_transforms):
             st.assume(z3.Implies(z3.And(is_ref(d), pc), a_of(d) != a_of(APP[1](c.prepare, bc))))
         st.assume(is_bool(c.inplace), is_bool(c.replace))
-        st.assume(z3.Or(is_none(c.prepare), z3.And(is_ref(c.prepare), st.get("cls_of", a_of(c.prepare)) == cid("function"))))
+        st.assume(z3.Or(is_none(c.prepare), z3.And(is_ref(c.prepare), z3.Or(st.get("cls_of", a_of(c.prepare)) == cid("function"),
+                                                                            st.get("cls_of", a_of(c.prepare)) == cid("method")))))
         st.assume(self.callable_or_none(st, c.transform))
         st.ghost = dict(st.ghost)
         st.ghost["roles"] = {c.transform.sexpr(): "transform"}
@@ -201,7 +202,8 @@ class MutateValue(Contract):
                                        for y in (x, unwrap(st, x))]))]
 
     def callable_or_none(self, st, v):
-        return z3.Or(is_none(v), is_cls(v), z3.And(is_ref(v), st.get("cls_of", a_of(v)) == cid("function")))
+        c = st.get("cls_of", a_of(v))
+        return z3.Or(is_none(v), is_cls(v), z3.And(is_ref(v), z3.Or(c == cid("function"), c == cid("method"))))
 
     def annotation(self, st, v):
         c = st.get("cls_of", a_of(v))
